@@ -160,6 +160,10 @@ func (store *fileStore) Refresh() (err error) {
 		return err
 	}
 
+	if err = store.dropPartialIndexLine(); err != nil {
+		return err
+	}
+
 	if store.bodyFile, err = openOrCreateFile(store.bodyFname, 0660); err != nil {
 		return err
 	}
@@ -188,6 +192,21 @@ func (store *fileStore) Refresh() (err error) {
 
 	if err := store.SetNextTargetMsgSeqNum(store.NextTargetMsgSeqNum()); err != nil {
 		return errors.Wrap(err, "set next target")
+	}
+	return nil
+}
+
+// dropPartialIndexLine removes an index line that was cut short by a crash. Left in
+// place it makes every read fail, and the next index line would be appended to it.
+func (store *fileStore) dropPartialIndexLine() error {
+	index, err := os.ReadFile(store.headerFname)
+	if err != nil || len(index) == 0 || index[len(index)-1] == '\n' {
+		return nil
+	}
+
+	complete := strings.LastIndexByte(string(index), '\n') + 1
+	if err := os.Truncate(store.headerFname, int64(complete)); err != nil {
+		return fmt.Errorf("unable to truncate file: %s: %s", store.headerFname, err.Error())
 	}
 	return nil
 }
